@@ -731,6 +731,9 @@ def _check_cx(case, ctx, ev, b, model, call, out, samples, log, nmeta, is_first)
             w = o18["cx_args"][i]
             if i == 0:
                 ctx.close(a[0], w, "cx-arg-energy", rtol=1e-9, atol=2e-9 * o18["e_scale_r"], scale=abs(w), info="(%s)" % key)
+            elif i == 2 and S.nall != S.nion:     # either reading of 'total ion density' (see ASSUMPTIONS)
+                ctx.check(abs(a[2] - S.nion) <= 1e-9 * S.nion or abs(a[2] - S.nall) <= 1e-9 * S.nall, "cx-arg",
+                          lambda: "(%s: total ion density) got %r, ions %r, all species %r" % (key, a[2], S.nion, S.nall))
             else:
                 ctx.close(a[i], w, "cx-arg", rtol=1e-9, atol=1e-300, info="(%s: %s)" % (key, names[i]))
     _check_rate_args(ctx, log, "pop", o18["pop_args"], "pop-arg")
